@@ -240,7 +240,7 @@ def check(case, b):
     resid = truth['pos'] + 1
     before = {n: dict(d) for n, d in mol.nodes(data=True) if d['resid'] == resid}
     before_edges = {frozenset(e) for e in mol.edges if e[0] in before and e[1] in before}
-    out = RepairGraph(include_graph=False).run_molecule(mol)
+    out = util.shared(RepairGraph, include_graph=False).run_molecule(mol)
     b.hits += 1
     after = {n: d for n, d in out.nodes(data=True) if d.get('resid') == resid and d.get('chain') == 'A'}
     flagged = {n for n, d in after.items() if d.get('PTM_atom')}
